@@ -278,6 +278,12 @@ inductive Op where
   | updateStart (sender : Addr) (t : Nat)
   | updateEnd (sender : Addr) (t : Nat)
   | setWhitelist (sender : Addr) (k : Nat)
+  /-- environment: any OTHER message of the minter (`UpdateMintPrice`, `UpdateDiscountPrice`, `RemoveDiscountPrice`,
+  `UpdatePerAddressLimit`, `Purge`, `Shuffle`, `BurnRemaining`, `UpdateStartTradingTime`, sudo `UpdateStatus`), whatever
+  its outcome: afterwards the effective public price, the per-address limit and the mintable count are as observed,
+  and the public / plain-whitelist counters may have been purged. By construction it cannot touch the schedule,
+  the attached whitelist or the admin — the harness compares exactly those after every such message. -/
+  | minterEnv (price perAddr : Nat) (mintable : Option Nat) (purgePub purgeWl : Bool)
 
 /-- how a buyer's mint is accounted: public, or whitelist (`slot` = tiered stage id 1..3, none = plain counter) -/
 inductive MintKind where
@@ -547,6 +553,10 @@ def step (s : State) : Op → Except Err State
   | .updateStart sender t => withMinter s (updateStart s · sender t)
   | .updateEnd sender t => withMinter s (updateEnd s · sender t)
   | .setWhitelist sender k => withMinter s (setWhitelist s · sender k)
+  | .minterEnv price perAddr mintable pp pw =>
+    withMinter s fun m => .ok { m with price := ⟨m.price.denom, price⟩, perAddr := perAddr, mintable := mintable,
+                                        pubCount := if pp then fun _ => 0 else m.pubCount,
+                                        wlCount := if pw then fun _ => 0 else m.wlCount }
 
 /-- transactional semantics: a failed message leaves the world unchanged -/
 def step' (s : State) (op : Op) : State := match step s op with | .ok s' => s' | .error _ => s
